@@ -12,6 +12,7 @@ type c12In struct {
 	K     string     `json:"k"` // cur | fc | sort
 	Lists [][]uint64 `json:"lists"`
 	Ts    []uint64   `json:"ts"`
+	Views []int      `json:"views,omitempty"` // fc: the members are the prefix views all[:Views[i]] of ONE array all = Lists[0] (cumulative lists sharing storage)
 	Pre   []uint64   `json:"pre,omitempty"` // fc: member i is skipped to Pre[i%len] BEFORE the members are grouped (to the model: a cursor over the rest of its list)
 }
 
@@ -88,7 +89,7 @@ func nlistlist(ls [][]uint64) string {
 func init() {
 	props["C12"] = &propDef{
 		header:    "From BE Require Import Corr.CheckC12.",
-		rule:      "a 17 000-entry list with a single hop of 2^14+1 positions from an advanced cursor (thorough: a 40 000-entry list, hops of 2^k+-1 up to 2^15+1, also inside a field cursor); every ninth field-cursor case groups members that were skipped forward (some to their end) BEFORE NewFieldCursor; random sorted lists with duplicates (length 0..300, so every gallop/bisect boundary is hit) x target sequences (monotone and not, at/around members, beyond the end, the sentinel); groups of 1..5 lists; cursor sets of 0..48 for Sort (plus arrangements of 9..64 cursors: small heads at every position among equal ones, reversed, rotated, exhausted in front); thorough adds every sorted list over {1..5} of length <= 6 x every pair of targets 0..6. Non-trivial = the list(s) are non-empty and at least one call actually moves a cursor; distinct = distinct input",
+		rule:      "a 17 000-entry list with a single hop of 2^14+1 positions from an advanced cursor (thorough: a 40 000-entry list, hops of 2^k+-1 up to 2^15+1, also inside a field cursor); every ninth field-cursor case groups members that were skipped forward (some to their end) BEFORE NewFieldCursor, every ninth (and ten dedicated ones) members that are prefix views of ONE array; random sorted lists with duplicates (length 0..300, so every gallop/bisect boundary is hit) x target sequences (monotone and not, at/around members, beyond the end, the sentinel); groups of 1..5 lists; cursor sets of 0..48 for Sort (plus arrangements of 9..64 cursors: small heads at every position among equal ones, reversed, rotated, exhausted in front); thorough adds every sorted list over {1..5} of length <= 6 x every pair of targets 0..6. Non-trivial = the list(s) are non-empty and at least one call actually moves a cursor; distinct = distinct input",
 		shardSize: 500,
 		gen: func(tier string, r *Rand, add func(in interface{})) {
 			// corpus: the list of the unit test and boundary shapes
@@ -126,6 +127,12 @@ func init() {
 			if tier == "thorough" {
 				n = 60000
 			}
+			// members that are prefix views of one cumulative list, the shorter first and the shorter last
+			for _, vs := range [][]int{{3, 6}, {6, 3}, {2, 2, 5}, {0, 4}, {1, 6, 3}} {
+				one := []uint64{16, 32, 48, 64, 80, 96}
+				add(c12In{K: "fc", Lists: [][]uint64{one}, Views: vs, Ts: []uint64{10, 49, 50, 81, 97}})
+				add(c12In{K: "fc", Lists: [][]uint64{one}, Views: vs, Ts: []uint64{33, 65, 96, 200}})
+			}
 			for k := 0; k < n; k++ {
 				span := uint64(pick(r, []int{6, 20, 100, 1000}))
 				if r.Chance(10) {
@@ -151,6 +158,15 @@ func init() {
 						l := sortedList(r, m, span, 25)
 						ls = append(ls, l)
 						all = append(all, l...)
+					}
+					if k%9 == 7 && ln > 0 { // members that are prefix views of one array (cumulative lists), in any order of lengths
+						one := sortedList(r, ln, span, 10)
+						var vs []int
+						for i := 0; i < 2+r.Intn(3); i++ {
+							vs = append(vs, r.Intn(len(one)+1))
+						}
+						add(c12In{K: "fc", Lists: [][]uint64{one}, Views: vs, Ts: targets(r, one, 1+r.Intn(20), span)})
+						continue
 					}
 					in := c12In{K: "fc", Lists: ls, Ts: targets(r, all, 1+r.Intn(20), span)}
 					if k%9 == 4 && len(all) > 0 { // members that were advanced (some of them to their end) before being grouped
@@ -262,11 +278,24 @@ func init() {
 			case "fc":
 				var cs []be.EntriesCursor
 				nonEmpty := false
+				if len(in.Views) > 0 {
+					all := toEntries(in.Lists[0])
+					var lists [][]uint64
+					for i, n := range in.Views {
+						cs = append(cs, be.NewEntriesCursor(be.NewQKey("f", i), all[:n]))
+						lists = append(lists, in.Lists[0][:n])
+						nonEmpty = nonEmpty || n > 0
+					}
+					in.Lists = lists
+				}
 				lists := in.Lists
 				if len(in.Pre) > 0 {
 					lists = nil
 				}
 				for i, l := range in.Lists {
+					if len(in.Views) > 0 {
+						break
+					}
 					c := be.NewEntriesCursor(be.NewQKey("f", i), toEntries(l))
 					if len(in.Pre) > 0 {
 						t := in.Pre[i%len(in.Pre)]
